@@ -20,6 +20,7 @@ from ..core import (
     norm,
     parent,
     qualname,
+    resolve_local,
     src,
 )
 from ..report import Context
@@ -395,6 +396,102 @@ def r6_frontier_is_recomputed(ctx: Context) -> None:
     ctx.floor("C18.R6", "frontier query methods", n, 3)
 
 
+# Graph-level skips that cannot drop a task the per-graph query would have returned, one line of reason each.
+_R7_HARMLESS_SKIPS = {
+    # deliberately not listed: `G.is_complete()` (all *sinks* complete) - a join may run after its first completed parent, so
+    # a graph whose sinks are done can still hold a released task of another branch
+    "len(G) == 0": "a graph without tasks has nothing to offer",
+}
+
+
+def r7_every_graph_is_asked(ctx: Context) -> None:
+    ctx.rule("C18.R7", "the workload-level frontier queries ask every task graph: each call of the per-graph query inside "
+                       "Workload.get_schedulable_tasks / get_releasable_tasks iterates over the whole task-graph table and is not "
+                       "behind a graph-level condition (other than the listed harmless ones) - a skipped graph starves its released tasks")
+    wl = ctx.repo.mod(WORKLOAD).cls("Workload")
+    n = 0
+    for mname in ("get_schedulable_tasks", "get_releasable_tasks"):
+        fn = methods(wl).get(mname)
+        if fn is None:
+            continue
+        ctx.analysed_function(qualname(fn))
+        calls = [c for c in ast.walk(fn) if isinstance(c, ast.Call) and isinstance(c.func, ast.Attribute) and c.func.attr == mname
+                 and not is_self_attr(c.func) and norm(c.func.value) != "self"]
+        key = f"{WORKLOAD}::Workload.{mname}|every task graph is asked"
+        if not calls:
+            ctx.violation("C18.R7", key, loc(fn), f"Workload.{mname} no longer forwards to the per-graph {mname}")
+            continue
+        for c in calls:
+            n += 1
+            gname = norm(c.func.value)
+            guards: List[Tuple[str, ast.AST]] = []   # (condition under which the graph is skipped, node)
+            src = None
+            x, below = parent(c), c
+            while x is not None and x is not fn:
+                if isinstance(x, ast.If) or isinstance(x, ast.IfExp):
+                    in_body = any(below is b for b in (x.body if isinstance(x.body, list) else [x.body]))
+                    in_test = below is x.test
+                    if not in_test:
+                        guards.append((("not (%s)" % norm(x.test)) if in_body else norm(x.test), x))
+                if isinstance(x, (ast.ListComp, ast.GeneratorExp, ast.SetComp)):
+                    for g in x.generators:
+                        if any(isinstance(y, ast.Name) and y.id == gname.split(".")[0].split("[")[0] for y in ast.walk(g.target)) or \
+                                gname.startswith("self._task_graphs["):
+                            for t in g.ifs:
+                                guards.append(("not (%s)" % norm(t), t))
+                            if src is None:
+                                src = g.iter
+                if isinstance(x, ast.For):
+                    tnames = {y.id for y in ast.walk(x.target) if isinstance(y, ast.Name)}
+                    if gname.split(".")[0].split("[")[0] in tnames or any(isinstance(y, ast.Name) and y.id in tnames for y in ast.walk(c.func.value)):
+                        if src is None:
+                            src = x.iter
+                        # statements of the loop body before the one holding the call that leave the iteration early
+                        for st in x.body:
+                            if st is below:
+                                break
+                            for y in ast.walk(st):
+                                if isinstance(y, (ast.Continue, ast.Break, ast.Return)):
+                                    conds = []
+                                    q = parent(y)
+                                    qb = y
+                                    while q is not None and q is not x:
+                                        if isinstance(q, ast.If):
+                                            conds.append(norm(q.test) if any(qb is b for b in q.body) else "not (%s)" % norm(q.test))
+                                        qb, q = q, parent(q)
+                                    guards.append((" and ".join(conds) if conds else "True", y))
+                below, x = x, parent(x)
+            if src is None:
+                ctx.violation("C18.R7", key, loc(c), f"the per-graph call `{norm(c)[:50]}` is not made inside an iteration over the task-graph table")
+                continue
+            it = src
+            while isinstance(it, ast.Call) and isinstance(it.func, ast.Name) and it.func.id in ("list", "tuple", "sorted", "iter", "reversed") and it.args:
+                it = it.args[0]
+            whole = norm(it) in ("self._task_graphs.values()", "self._task_graphs.items()", "self._task_graphs", "self._task_graphs.keys()")
+            if not whole and isinstance(it, ast.Name):
+                d = resolve_local(fn, it)
+                whole = norm(d) in ("self._task_graphs.values()", "self._task_graphs.items()", "self._task_graphs", "list(self._task_graphs.values())")
+            bad = []
+            for cond, node in guards:
+                generic = cond.replace(gname, "G")
+                f = generic
+                for h in _R7_HARMLESS_SKIPS:
+                    if f in (h, f"not (not ({h}))", f"not (not {h})"):
+                        f = None
+                        break
+                if f is not None:
+                    bad.append((cond, node))
+            if not whole:
+                ctx.violation("C18.R7", key, loc(src), f"Workload.{mname} iterates over `{norm(src)[:60]}`, not the whole task-graph table")
+            elif bad:
+                cond, node = bad[0]
+                ctx.violation("C18.R7", key, loc(node), f"Workload.{mname} skips a task graph when `{cond[:80]}`: released tasks of such a graph "
+                              "whose release time has arrived are never offered to the policy (starvation)")
+            else:
+                ctx.ok("C18.R7", key, loc(c), f"iterates `{norm(src)[:40]}`; graph-level guards: {[g[0] for g in guards] or 'none'}")
+    ctx.floor("C18.R7", "per-graph frontier calls in Workload", n, 2)
+
+
 def run(ctx: Context) -> None:
     ctx.isolate(r1_offer_table)
     ctx.isolate(r2_monotone)
@@ -403,6 +500,7 @@ def run(ctx: Context) -> None:
     ctx.isolate(c17.r7_adjacency_maps_in_step, _alias={"C17.R7": "C18.R4"})
     ctx.isolate(c06.remaining_time_table, "C18.R5")
     ctx.isolate(r6_frontier_is_recomputed)
+    ctx.isolate(r7_every_graph_is_asked)
     ctx.isolate(r2b_parameter_agreement)
     ctx.isolate(c02.r4_release_discipline)
     ctx.isolate(c07.r1_one_of_n)
